@@ -5,8 +5,8 @@
   Mirrors
     core/task/task.go        isLocked (the real conjunction), IsClaimable, SetParent
     core/task/roster.go      the roster as a list
-    core/task/manager.go     acquireTasks (incl. reuse of unlocked tasks and the
-                             unconditional deployMu.Unlock), releaseTasks/releaseTask,
+    core/task/manager.go     acquireTasks (incl. reuse of unlocked tasks; the deployMu
+                             Lock/Unlock pairing: `Cfg.unlockUnpaired`), releaseTasks/releaseTask,
                              KillTasks/doKillTasks, Cleanup
     core/environment/manager.go
                              CreateEnvironment (detector snapshot → Cleanup → load →
@@ -14,8 +14,8 @@
                              path GO_ERROR / forced teardown / KillTasks),
                              TeardownEnvironment (release non-hook tasks → DESTROY and
                              after_DESTROY hooks by weight → cancelCallsPendingAwait →
-                             release "the" hook tasks → DONE → delete), the
-                             pendingTeardownsCh rendezvous with the event loop
+                             release the hook tasks (`Cfg.lastWeightOnly`) → DONE → delete), the
+                             pendingTeardownsCh rendezvous with the event loop (`Cfg.lateDelete`)
     core/server.go           DestroyEnvironment decision tree, doTeardownAndCleanup,
                              ControlEnvironment glue, CleanupTasks
 
@@ -23,8 +23,14 @@
   state), `master` is what really runs (one row per launched Mesos task).
   Everything is a total function. Outcomes the code does not decide (which
   tasks had reported TASK_RUNNING when a deployment was given up, which task
-  fails a transition, whether the event loop deletes the pending-teardown entry
-  before or after TeardownEnvironment re-registers) are oracle arguments.
+  fails a transition, and — in the legacy configuration only — whether the event
+  loop deletes the pending-teardown entry before or after TeardownEnvironment
+  re-registers) are oracle arguments.
+
+  Three defects of the code were repaired (notes/C04.fix-1, C06.fix-1, C06.fix-2). A state
+  carries the configuration `Cfg` it runs under: `codeCfg` is the code as it is (the default
+  of `init`), `legacyCfg` the code as it was; the refutation theorems of the three findings
+  are statements about `legacyCfg`.
 
   Executor / agent failure (Mesos FAILURE event → HandleExecutorFailed /
   HandleAgentFailed, the status update TASK_RUNNING re-filling agentId / executorId)
@@ -45,6 +51,26 @@ abbrev TaskId := Nat
 abbrev Det := Nat
 abbrev Cls := Nat
 abbrev Host := Nat
+
+/-- The three places where the code as it is differs from the code as it was. -/
+structure Cfg where
+  /-- manager.go acquireTasks: `m.deployMu.Unlock()` stands outside the block
+      `if len(tasksToRun) > 0 { m.deployMu.Lock() … }` and runs on every path. -/
+  unlockUnpaired : Bool
+  /-- environment/manager.go, event loop, `case *event.TasksReleasedEvent`: the pending-teardown
+      entry is deleted in a second critical section, after the event was handed over. -/
+  lateDelete : Bool
+  /-- TeardownEnvironment: the second ReleaseTasks message is assigned inside the loop over the
+      DESTROY weights, from the list already filtered for ACTIVE roles. -/
+  lastWeightOnly : Bool
+  deriving DecidableEq, Repr, Inhabited
+
+/-- The code as it is: Lock/Unlock of deployMu paired, the entry removed in the critical section
+    that looks it up, the DESTROY hook tasks of all weights released together. -/
+def codeCfg : Cfg := { unlockUnpaired := false, lateDelete := false, lastWeightOnly := false }
+
+/-- The code as it was before the three repairs. -/
+def legacyCfg : Cfg := { unlockUnpaired := true, lateDelete := true, lastWeightOnly := true }
 
 inductive EState where
   | STANDBY | DEPLOYED | CONFIGURED | RUNNING | ERROR | DONE
@@ -163,6 +189,7 @@ structure Pending where
 
 structure State where
   reuse : Bool                                   -- flag reuseUnlockedTasks
+  cfg : Cfg := codeCfg                           -- which code the state runs under (never changes)
   hosts : List Host                              -- machines that exist
   roster : List Task := []
   envs : List Env := []
@@ -175,7 +202,8 @@ structure State where
   crashed : Bool := false                        -- the core process died
   deriving Repr, Inhabited
 
-def init (reuse : Bool) (hosts : List Host) : State := { reuse := reuse, hosts := hosts }
+def init (reuse : Bool) (hosts : List Host) (cfg : Cfg := codeCfg) : State :=
+  { reuse := reuse, hosts := hosts, cfg := cfg }
 
 def State.env? (s : State) (k : EnvId) : Option Env := s.envs.find? (fun E => E.id = k)
 
@@ -265,10 +293,12 @@ def tdPlain (E : Env) : List TaskId := E.tasks.filter (fun x => decide (x ∉ ef
 /-- The hook tasks triggered at weight `w`: those whose role is still ACTIVE. -/
 def tdRun (s1 : State) (E : Env) (w : Int) : List TaskId := (hooksAt E.hooks w).filter (roleActive s1)
 
-/-- The second ReleaseTasks message: `taskmanMessage` is overwritten in every iteration of
-    the loop over the weights, so it names the last weight's triggered hook tasks only — or
-    still the first message's tasks if there is no DESTROY hook at all. -/
+/-- The second ReleaseTasks message: the hook tasks of all weights, triggered or not.
+    (Legacy: `taskmanMessage` was overwritten in every iteration of the loop over the weights,
+    so it named the last weight's triggered hook tasks only — or still the first message's
+    tasks if there was no DESTROY hook at all.) -/
 def tdMsg (s1 : State) (E : Env) : List TaskId :=
+  if !s1.cfg.lastWeightOnly then effHooks E.hooks else
   match (weightsOf E.hooks).getLast? with
   | none => tdPlain E
   | some w => tdRun s1 E w
@@ -290,7 +320,8 @@ def tdCancel (s1 : State) (k : EnvId) (_E : Env) : State :=
 /-- TeardownEnvironment after the first release went through: hooks, cancelCallsPendingAwait,
     second release, DONE, delete. `late`: the event loop closes and deletes the
     pending-teardown entry only after the second registration, so the second
-    TasksReleasedEvent finds no entry and the call waits for ever. -/
+    TasksReleasedEvent finds no entry and the call waits for ever (`teardown` passes `false`
+    unless the configuration has the late delete). -/
 def tdFinish (s1 : State) (k : EnvId) (E : Env) (late : Bool) (hf : List TaskId) : State × TRes × List TEv :=
   let s2 := tdCancel s1 k E
   let tr := tdTrace s1 E
@@ -303,7 +334,8 @@ def tdFinish (s1 : State) (k : EnvId) (E : Env) (late : Bool) (hf : List TaskId)
    if tdHookErr s1 E hf then .doneErr else .ok, tr ++ [.release msg])
 
 /-- environment.Manager.TeardownEnvironment. `hf`: hook tasks that answer TriggerHook
-    with an error. -/
+    with an error. `late`: the oracle of the rendezvous race; it only has a say in a
+    configuration with `lateDelete` (see `Rdv`: the repaired protocol has no such schedule). -/
 def teardown (s : State) (k : EnvId) (force late : Bool) (hf : List TaskId := []) : State × TRes × List TEv :=
   match s.env? k with
   | none => (s, .notfound, [])
@@ -313,7 +345,7 @@ def teardown (s : State) (k : EnvId) (force late : Bool) (hf : List TaskId := []
     if !(decide (E.state = .STANDBY) || decide (E.state = .DEPLOYED)) && !force then (s, .err, []) else
     let r1 := releaseTasks s k (tdPlain E)
     if r1.2 > 0 then (r1.1, .err, [.release (tdPlain E)]) else
-    tdFinish r1.1 k E late hf
+    tdFinish r1.1 k E (late && s.cfg.lateDelete) hf
 
 /-! ### transitions of a live environment -/
 
@@ -363,9 +395,10 @@ def restartCalls (s : State) (k : EnvId) (E : Env) (ev : CEv) : State :=
   else s
 
 /-- server.go ControlEnvironment: a failed (or illegal) transition is followed
-    by GO_ERROR; the reply carries the new state and — the error being
-    overwritten by GO_ERROR's result — no error, unless GO_ERROR itself is
-    illegal (state ERROR): then the state is forced and that error is returned.
+    by GO_ERROR (forced if GO_ERROR itself is illegal) and the request is answered with
+    an error (since the `fix:` commit "ControlEnvironment reports the error of a failed
+    transition"; before it the error was overwritten by GO_ERROR's result and the reply
+    said OK with state ERROR — C02 finding rpc_ok_on_failed_transition).
     `pre`: the transition is cancelled before its body (START_ACTIVITY lost the
     compare-and-swap on the run number to a concurrent START). A legal CONFIGURE
     starts the before_CONFIGURE calls again. -/
@@ -379,12 +412,12 @@ def control (s : State) (k : EnvId) (ev : CEv) (fails : List (TaskId × Bool)) (
     match envDst? ev E.state with
     | none =>
       if E.state = .ERROR then (s, .err)
-      else (setEnv s k (fun X => { X with state := .ERROR }), .okState .ERROR)
+      else (setEnv s k (fun X => { X with state := .ERROR }), .err)
     | some d =>
-      if pre then (setEnv s k (fun X => { X with state := .ERROR }), .okState .ERROR) else
+      if pre then (setEnv s k (fun X => { X with state := .ERROR }), .err) else
       let r := applyTrans (restartCalls s k E ev) E ev fails
       if r.2 then (setEnv r.1 k (fun X => { X with state := d }), .okState d)
-      else (setEnv r.1 k (fun X => { X with state := .ERROR }), .okState .ERROR)
+      else (setEnv r.1 k (fun X => { X with state := .ERROR }), .err)
 
 /-! ### destroy -/
 
@@ -639,7 +672,9 @@ def createConfigure (s : State) (k : EnvId) (spec : EnvSpec) (a : Acq) (o : Sett
     else createFail s3 k a.ids o.late .errConfigure o.hookFails
 
 /-- DEPLOY (acquireTasks + waiting for the workflow to become ACTIVE), CONFIGURE,
-    and the failure tail. -/
+    and the failure tail. With reuseUnlockedTasks a creation that claimed a task never gets past
+    DEPLOY (seen on the real core, complete and partial claims alike): it answers a deployment
+    error after the deploy timeout and its failure tail releases and kills what it had taken. -/
 def createSettle (s : State) (k : EnvId) (o : SettleOracle) : State × Res :=
   match s.pending? k true with
   | none => (s, .noop)
@@ -651,12 +686,16 @@ def createSettle (s : State) (k : EnvId) (o : SettleOracle) : State × Res :=
       createFail s k [] o.late .errDeploy
     else
     let claims := claimsOf s p
-    if s.reuse && (descs.filter (fun d => decide (d.1 ∉ claims.map (·.1)))).isEmpty then
-      -- deployMu.Lock() is skipped but deployMu.Unlock() is not: fatal error, the process dies
+    if s.reuse && s.cfg.unlockUnpaired && (descs.filter (fun d => decide (d.1 ∉ claims.map (·.1)))).isEmpty then
+      -- legacy: deployMu.Lock() is skipped but deployMu.Unlock() is not: fatal error, the process dies
+      -- (the code as it is unlocks inside the block that locks: nothing to run, nothing locked)
       ({ s with crashed := true }, .crash)
     else
     let a := acquire s k p.spec claims o
-    if !a.deployOk then createFail a.s k a.ids o.late .errDeploy o.hookFails
+    -- a claimed task gets its parent role and the role gets the task, but the role's status stays INACTIVE
+    -- (only a Mesos status update sets it, and none comes for a task that is already running): DEPLOY waits for
+    -- the workflow to become ACTIVE until the deploy timeout and the creation is given up ("N inactive roles")
+    if !a.deployOk || !claims.isEmpty then createFail a.s k a.ids o.late .errDeploy o.hookFails
     else createConfigure a.s k p.spec a o
 
 /-- The simulated tasks of environment `k` held at launch finish starting
@@ -698,7 +737,14 @@ inductive Step where
   `delete` removes whatever is registered under the id at that moment. Between
   `handoff` and `delete` goroutine T is free to run its hooks and `register` again:
   then the delete takes the FRESH entry away, the second TasksReleasedEvent finds
-  none (it is dropped) and T waits for ever. `tdFinish … late := true` is this schedule. -/
+  none (it is dropped) and T waits for ever. `tdFinish … late := true` is this schedule.
+  This is the legacy protocol (`atomic := false`). The code as it is (`atomic := true`) does
+
+    L  recv     : case *TasksReleasedEvent: Lock; thisEnvCh, ok := pendingTeardownsCh[id];
+                                            delete(pendingTeardownsCh, id); Unlock
+    L  handoff  : thisEnvCh <- typedEvent; close(thisEnvCh)
+
+  so the only entry the loop ever removes is the one it has just read. -/
 
 namespace Rdv
 
@@ -721,7 +767,7 @@ structure St where
 
 def done (s : St) : Bool := decide (s.td = 6)
 
-/-- One step of the given kind, if it is enabled. `atomic`: the repaired event loop, which
+/-- One step of the given kind, if it is enabled. `atomic`: the event loop as it is, which
     takes the entry out of the map in the same critical section in which it looked it up
     (so the hand-off and the deletion cannot be separated by a registration). -/
 def step (atomic : Bool) (s : St) : Step → Option St
@@ -758,6 +804,9 @@ def reach (atomic : Bool) : Nat → List St → List St
   | fuel + 1, acc =>
     let next := acc.flatMap (fun s => allSteps.filterMap (step atomic s))
     reach atomic fuel (next.foldl (fun a s => if s ∈ a then a else a ++ [s]) acc)
+
+/-- The protocol a configuration runs. -/
+def atomicOf (c : Cfg) : Bool := !c.lateDelete
 
 end Rdv
 
